@@ -1,5 +1,6 @@
 import Lean.Data.Json
 import AnonModel.Model.Convert
+import AnonModel.Model.ProofDoc
 import AnonModel.Model.Issuance
 import AnonModel.Model.IssuanceW3C
 import AnonModel.Driver.OpsVerify
@@ -27,6 +28,27 @@ def w3cMetaOfJson (j : Json) : Option W3CMeta := do
          v11 := ← fld j "v11" >>= boolOfJson, hasIssuanceDate := ← fld j "has_issuance_date" >>= boolOfJson,
          signatureProofOk := ← fld j "signature_proof_ok" >>= boolOfJson }
 
+def pdScalarOfJson (j : Json) : Option ProofDoc.Scalar :=
+  match j.getObjVal? "anon", j.getObjVal? "other" with
+  | .ok (.arr #[p, k, i]), _ => do
+    let p ← natOfJson p; let k ← natOfJson k; let i ← natOfJson i
+    let purpose ← (match p with | 0 => some ProofDoc.Purpose.assertion | 1 => some .authentication | _ => none)
+    let kind ← (match k with | 0 => some ProofDoc.Kind.signature | 1 => some .credPresentation | 2 => some .presentation | _ => none)
+    pure (.anon ⟨purpose, kind, i⟩)
+  | _, .ok i => (natOfJson i).map .other
+  | _, _ => none
+
+def pdEntryOfJson (j : Json) : Option ProofDoc.Entry :=
+  match j.getObjVal? "nested" with
+  | .ok i => (natOfJson i).map .nested
+  | _ => (pdScalarOfJson j).map .sc
+
+def pdDocOfJson (j : Json) : Option ProofDoc.Doc :=
+  match j.getObjVal? "arr", j.getObjVal? "val" with
+  | .ok a, _ => (listOfJson pdEntryOfJson a).map .arr
+  | _, .ok v => (pdScalarOfJson v).map .val
+  | _, _ => none
+
 def blindedOfJson (j : Json) : Option Blinded := do
   pure { key := ← fld j "key" >>= natOfJson, holder := ← fld j "holder" >>= natOfJson, blinding := ← fld j "blinding" >>= natOfJson,
          proofNonce := ← fld j "proof_nonce" >>= strOfJson, intact := ← fld j "intact" >>= boolOfJson }
@@ -44,6 +66,12 @@ def stepIssue (op : String) (j : Json) : Option Json :=
       | some subj =>
         Json.mkObj [("subject", assocToJson subjValToJson subj),
                     ("back", match subjectEncode subj with | some b => valuesToJson b | none => errJ)])
+  | "proof_doc" => do
+    -- the `proof` member of a stored W3C credential: which proof the getters find, and the document written back
+    let d ← fld j "doc" >>= pdDocOfJson
+    let m := ProofDoc.parse d
+    pure (Json.mkObj [("sig", optNatJ (ProofDoc.sigProof m)), ("pres", optNatJ (ProofDoc.presProof m)),
+                      ("same", Json.bool (ProofDoc.emit m == some d))])
   | "convert_w3c" => do
     let m ← fld j "meta" >>= w3cMetaOfJson
     let subj ← fld j "subject" >>= assocOfJson subjValOfJson
